@@ -211,8 +211,162 @@ def r6_whole_domain(ctx):
         ctx.ob('C08.R6', 'detect_method_conflicts|every-guard-kind-counted', ok, mc.loc(), detail)
 
 
+# For every roster checker: the calls whose result decides whether an item of the checked domain is skipped (a branch inside the
+# checker's loops from which no diagnostic can be reached any more before the next iteration). Extracted from today's tree and
+# confirmed by reading each function: lifecycle / cloning-policy filters that the documented rule itself names, the loop
+# machinery, and the predicate that IS the rule (assert_trait_is_implemented, find_cycles, ...). A new entry means a new way
+# for a rule-breaking component to escape the check.
+REVIEWED_SKIP_PREDICATES = {
+    'analyses::constructibles::ConstructibleDb::detect_missing_constructors': {
+        'analyses::components::db::ComponentDb::cloning_policy',
+        'analyses::components::db::ComponentDb::derived_component_ids',
+        'analyses::components::db::ComponentDb::hydrated_component',
+        'analyses::components::db::ComponentDb::lifecycle',
+        'analyses::components::db::ComponentDb::scope_id',
+        'analyses::components::db::ComponentDb::user_component_id',
+        'analyses::components::hydrated::HydratedComponent::input_types',
+        'analyses::constructibles::ConstructibleDb::detect_missing_constructors::Queue::bootstrap',
+        'analyses::constructibles::ConstructibleDb::detect_missing_constructors::Queue::pop',
+        'analyses::constructibles::ConstructibleDb::get_or_try_bind',
+        'analyses::framework_items::FrameworkItemDb::get_id',
+        'analyses::framework_items::FrameworkItemDb::lifecycle',
+        'core::cmp::PartialEq::eq',
+    },
+    'analyses::constructibles::ConstructibleDb::verify_singleton_ambiguity': {
+        'indexmap::set::IndexSet::len',
+    },
+    'analyses::constructibles::ConstructibleDb::verify_lifecycle_of_singleton_dependencies': {
+        'analyses::components::db::ComponentDb::hydrated_component',
+        'analyses::components::db::ComponentDb::iter',
+        'analyses::components::db::ComponentDb::lifecycle',
+        'analyses::components::db::ComponentDb::scope_graph',
+        'analyses::components::db::ComponentDb::scope_id',
+        'analyses::components::hydrated::HydratedComponent::input_types',
+        'analyses::constructibles::ConstructibleDb::get',
+        'core::cmp::PartialEq::eq',
+        'core::cmp::PartialEq::ne',
+    },
+    'analyses::constructibles::ConstructibleDb::error_observers_cannot_depend_on_fallible_components': {
+        'analyses::components::db::ComponentDb::hydrated_component',
+        'analyses::components::db::ComponentDb::iter',
+        'analyses::components::db::ComponentDb::scope_graph',
+        'analyses::components::db::ComponentDb::scope_id',
+        'analyses::constructibles::ConstructibleDb::get',
+        'component::constructor::Constructor::input_types',
+        'component::error_observer::ErrorObserver::input_types',
+    },
+    'analyses::call_graph::dependency_graph::DependencyGraph::assert_acyclic': {
+        'analyses::call_graph::dependency_graph::find_cycles',
+    },
+    'analyses::application_state::thread_safety::runtime_singletons_are_thread_safe': {
+        'framework_rustdoc::resolve_type_path',
+        'traits::assert_trait_is_implemented',
+    },
+    'analyses::application_state::cloning::runtime_singletons_can_be_cloned_if_needed': {
+        'analyses::components::db::ComponentDb::cloning_policy',
+        'analyses::processing_pipeline::pipeline::RequestHandlerPipeline::graph_iter',
+        'core::cmp::PartialEq::eq',
+        'core::cmp::PartialEq::ne',
+        'core::result::Result::is_ok',
+        'framework_rustdoc::resolve_type_path',
+        'traits::assert_trait_is_implemented',
+    },
+    'analyses::cloning::cloneables_can_be_cloned': {
+        'analyses::components::db::ComponentDb::cloning_policy',
+        'analyses::components::db::ComponentDb::hydrated_component',
+        'analyses::components::db::ComponentDb::iter',
+        'analyses::components::hydrated::HydratedComponent::output_type',
+        'core::cmp::PartialEq::ne',
+        'framework_rustdoc::resolve_type_path',
+        'traits::assert_trait_is_implemented',
+    },
+    'path_parameters::verify_path_parameters': {
+        'analyses::processing_pipeline::pipeline::RequestHandlerPipeline::graph_iter',
+        'analyses::route_path::RoutePath::parse',
+        'analyses::router::Router::handler_ids',
+        'analyses::router::Router::route_infos',
+        'core::result::Result::is_err',
+        'framework_rustdoc::resolve_type_path',
+        'indexmap::set::IndexSet::is_empty',
+        'path_parameters::must_be_a_plain_struct',
+        'traits::assert_trait_is_implemented',
+    },
+    'analyses::user_components::router::PathRouter::detect_method_conflicts': {
+        'indexmap::set::IndexSet::len',
+    },
+    'analyses::user_components::router::PathRouter::detect_path_conflicts': {
+        'core::cmp::PartialEq::eq',
+    },
+    'analyses::user_components::router::DomainRouter::detect_domain_conflicts': {
+        'analyses::domain::DomainGuard::matchit_pattern',
+    },
+    'component::CannotTakeMutReferenceError::check_callable': set(),
+}
+
+_GENERIC_PREDICATES = ('eq', 'ne', 'is_some', 'is_none', 'is_empty', 'is_ok', 'is_err', 'contains', 'contains_key', 'len', 'lt', 'le', 'gt', 'ge',
+                       'matches', 'starts_with', 'ends_with')
+
+
+def skip_predicates(b, mp):
+    """{(loop head, switch block): calls feeding the switch} for switches inside a loop of `b` that decide whether a diagnostic
+    can still be reached before the next iteration"""
+    NEXT = 'core::iter::traits::iterator::Iterator::next'
+    emit = {bb for bb, t in b.calls() if (callee(t) in mp or callee(t) == PUSH or (t.get('res') or '') in mp)}
+    heads = [bb for bb, t in b.calls() if callee(t) == NEXT and bb in b.reachable(b.succ(bb))]
+    out = {}
+    defs = Defs(b)
+    for H in heads:
+        body_blocks = {x for x in b.reachable(b.succ(H), avoid=[H]) if H in b.reachable([x])}
+        E = emit & body_blocks
+        if not E:
+            continue
+        for W in sorted(body_blocks | {H}):
+            t = b.term(W)
+            if not t or t['k'] != 'switch':
+                continue
+            succs = list(dict.fromkeys([x[1] for x in t['ts']] + [t['else']]))
+            can = [bool(b.reachable([x], avoid=[H]) & E) for x in succs]
+            if any(can) and not all(can):
+                src = t.get('src')
+                pl = op_place(t['d']) if 'd' in t else None
+                l = src['l'] if src else (pl['l'] if pl else None)
+                cs = set()
+                if l is not None:
+                    sl, _ = backward_slice(b, l, defs)
+                    cs = {strip_generics(c) for c, _, _ in slice_calls(sl) if c}
+                out[(H, W)] = cs
+    return out
+
+
+def r7_skip_conditions(ctx):
+    ctx.rule('C08.R7', 'P1 + reviewed table: inside the loops of every roster checker, each branch that decides whether an item can still be '
+             'reported in this iteration is fed only by the reviewed predicates of that checker (REVIEWED_SKIP_PREDICATES, extracted from the '
+             'tree and confirmed by reading). A new predicate is a new way to skip an item of the checked domain (e.g. skipping derived '
+             'components, or tolerating a router conflict under a weaker comparison).')
+    g, mp = cg(ctx)
+    n = 0
+    for fn in list(ROSTER) + list(VALIDATORS):
+        short = fn.replace(PX, '')
+        reviewed = REVIEWED_SKIP_PREDICATES.get(short)
+        bodies = ctx.fb.bodies_of_item('pavexc', fn)
+        if not ctx.need('C08.R7', short, bodies) or reviewed is None:
+            continue
+        found = {}
+        for b in bodies:
+            for (H, W), cs in skip_predicates(b, mp).items():
+                n += 1
+                for c in cs:
+                    if c.startswith('pavexc::') or c.split('::')[-1] in _GENERIC_PREDICATES:
+                        found.setdefault(c.replace('pavexc::compiler::', ''), b.loc(W))
+        new = sorted(set(found) - reviewed)
+        ctx.ob('C08.R7', 'skip-conditions|%s' % short, not new, found[new[0]] if new else bodies[0].loc(),
+               '%d predicate(s) decide what %s skips; not in the reviewed table: %s' % (len(found), short.split('::')[-1], new or 'none'))
+    ctx.floor('C08.R7', 'skip-deciding branches in the roster checkers', n, 60)
+
+
 def check(ctx):
     r1_roster_on_the_way(ctx)
     r2_reports_errors(ctx)
     r3_gated(ctx)
     r6_whole_domain(ctx)
+    r7_skip_conditions(ctx)
